@@ -36,22 +36,79 @@ POOL = [
 ]
 
 
+LINE_TIMEOUT = 900          # per chunk (<= 200 lines) in run_lines; the thorough tier raises it
+
+
 def _retry(binary, lines, outs, timeout):
-    """a shard that timed out (overloaded machine) is re-run line by line, once, with a longer limit"""
+    """a line that timed out (overloaded machine) is re-run alone, once, with a longer limit"""
     idx = [i for i, o in enumerate(outs) if o == "TIMEOUT"]
     if idx:
-        again = C.run_lines(binary, [lines[i] for i in idx], shards=max(1, min(C.NPROC, len(idx))), timeout=3 * timeout)
+        again = heavy(binary, [lines[i] for i in idx], timeout=3 * timeout)
         for i, o in zip(idx, again):
             outs[i] = o
     return outs
 
 
-def vh(lines, shards=C.NPROC, timeout=900):
-    return _retry(C.VH(UNIT), lines, C.run_lines(C.VH(UNIT), lines, shards=shards, timeout=timeout), timeout)
+def _shuffled(binary, lines, shards, timeout):
+    """C.run_lines over the lines in a fixed pseudo-random order, so that expensive neighbours (corpus files, cost-limit
+    variants of one case) are spread over the chunks; outputs are returned in the original order"""
+    import random
+    order = list(range(len(lines)))
+    random.Random(len(lines) * 2654435761 % (2 ** 32)).shuffle(order)
+    outs = C.run_lines(binary, [lines[i] for i in order], shards=shards, timeout=timeout)
+    res = [None] * len(lines)
+    for i, o in zip(order, outs):
+        res[i] = o
+    return res
 
 
-def vrun(lines, shards=C.NPROC, timeout=900):
-    return _retry(C.VRUN(UNIT), lines, C.run_lines(C.VRUN(UNIT), lines, shards=shards, timeout=timeout), timeout)
+def heavy(binary, lines, timeout):
+    """one process per line on a pool (for lines that may each take minutes: corpus blocks, timed-out retries)"""
+    from concurrent.futures import ThreadPoolExecutor
+    if not lines:
+        return []
+    with ThreadPoolExecutor(max_workers=max(1, min(C.NPROC, len(lines)))) as ex:
+        return [r[0] for r in ex.map(C._run_shard, [(binary, [l], timeout) for l in lines])]
+
+
+def vh(lines, shards=C.NPROC, timeout=None):
+    timeout = timeout or LINE_TIMEOUT
+    return _retry(C.VH(UNIT), lines, _shuffled(C.VH(UNIT), lines, shards, timeout), timeout)
+
+
+def vrun(lines, shards=C.NPROC, timeout=None):
+    timeout = timeout or LINE_TIMEOUT
+    return _retry(C.VRUN(UNIT), lines, _shuffled(C.VRUN(UNIT), lines, shards, timeout), timeout)
+
+
+def vh_heavy(lines, timeout):
+    return heavy(C.VH(UNIT), lines, timeout)
+
+
+QUICK_ANSWER_S = 20
+
+
+def unchecked(rep, stream, line, i, m=None):
+    """machine-overload policy.  Returns True when the case must NOT be compared: a side that did not finish (TIMEOUT,
+    also when re-run alone with three times the limit) makes the case `unchecked` in the evidence, not a failure —
+    unless the other side answers the same line alone within QUICK_ANSWER_S seconds, i.e. one side repeatedly does not
+    finish alone while the other answers quickly: then the caller reports it (returns False)."""
+    ti, tm = i == "TIMEOUT", m == "TIMEOUT"
+    if not (ti or tm):
+        return False
+    if m is not None and ti != tm:
+        import time
+        t0 = time.time()
+        o = C._run_shard((C.VRUN(UNIT) if ti else C.VH(UNIT), [line], 3 * QUICK_ANSWER_S))[0]
+        if o != "TIMEOUT" and time.time() - t0 <= QUICK_ANSWER_S:
+            return False
+    st = rep.streams.setdefault(stream, {})
+    st["unchecked"] = st.get("unchecked", 0) + 1
+    u = rep.extra.setdefault("unchecked", {"total": 0, "policy": "a case one side did not finish within the time limit (also alone, with 3x the limit) "
+                                           "is not compared and not a failure, unless the other side answers it alone within %d s" % QUICK_ANSWER_S})
+    u["total"] += 1
+    u[stream] = u.get(stream, 0) + 1
+    return True
 
 
 def refs_tok(refs):
@@ -423,7 +480,7 @@ def base_line(c):
     return "gen.case %d %d %s %s" % (c["flags"], c["max_cost"], hexo(c["program"]), refs_tok(c["refs"]))
 
 
-def tables(cases, timeout=900):
+def tables(cases, timeout=None):
     """record the run-oracle table (and the valid-key table) of every case with the implementation"""
     lines = ["gen.table %d %d %s %s" % (c["flags"], budget_of(c), hexo(c["program"]), refs_tok(c["refs"])) for c in cases]
     outs = vh(lines, timeout=timeout)
@@ -431,6 +488,17 @@ def tables(cases, timeout=900):
         t = o.split(" ")
         c["keys_tok"], c["table_tok"] = (t[0], t[1]) if len(t) == 2 else ("-", "-")
         c["table_status"] = o if len(t) != 2 else "ok"
+
+
+def with_table(rep, stream, cases):
+    """the cases whose oracle table could be recorded; a table that timed out makes the case unchecked"""
+    out = []
+    for c in cases:
+        if c.get("table_status") == "TIMEOUT":
+            unchecked(rep, stream, base_line(c), "TIMEOUT")
+        else:
+            out.append(c)
+    return out
 
 
 def both_line(c, consts_hex):
